@@ -8,16 +8,17 @@ by its input (`EqHash.verHash`, `vcHash`, `gcHash`, `mHash` : a tree of the prim
 Where the unrestricted statement is false of model and code the theorem carries the reachability guard and the
 counterexample is proved beside it:
 * `Version == VersionRange(min = max = v)` holds with different hashes, and is not even symmetric when only one end
-  is inclusive → guard `vcNonDegenerate` (no range whose two ends compare equal).  `intersect` never builds such a
-  range (`no_degenerate_range`), but `Version.union(Version)` does: `parse_constraint("1.0 || 1.0+local")` IS a
-  degenerate range equal to `parse_constraint("1.0+local")` with another hash (`counterexample_reachable_…`, a
-  genuine defect of the code, reported).
+  is inclusive → guard `vcNonDegenerate` (no range whose two ends compare equal).  Neither the parser nor the
+  algebra builds such a range: `no_degenerate_range` (intersect), `no_degenerate_range_union*`,
+  `no_degenerate_range_parse` — so the guard is discharged for everything reachable (`parsed_constraint_*`).
+  (Before repo fix 583640d `parse_constraint("1.0 || 1.0+local")` WAS a degenerate range; kept as a regression example.)
 * markers: `SingleMarker.__eq__` compares `(name, operator, value, swapped)` only, so interchangeability needs the
   invariant that the stored constraint is the one the constructor derives from that key (`mCoherent`).
 -/
 import PoetryVerif.Proofs.EqHashAllows
 import PoetryVerif.Proofs.EqHashMarker
 import PoetryVerif.Proofs.EqHashDep
+import PoetryVerif.Proofs.EqHashParse
 import PoetryVerif.Proofs.VersionParse
 
 set_option linter.unusedSimpArgs false
@@ -160,6 +161,64 @@ theorem counterexample_version_eq_range_symm :
   intro h
   have := h (.single (.ver cexV)) (.single (.rng cexHalf)) (by decide)
   revert this; decide
+
+/-! ### parser and algebra never build a degenerate range
+
+`vcWF c`: every member of `c` has well-formed bounds and strictly ordered ends (`RC.WF`); it implies
+`vcNonDegenerate c` and `c.wfB`, the two guards of the theorems above. -/
+
+theorem wellformed_is_nondegenerate (c : VC) (h : vcWF c) : vcNonDegenerate c = true ∧ c.wfB :=
+  ⟨vcND_of_vcWF h, fun r hr => RC.WF.wfB (h r hr)⟩
+
+/-- `a.union(b)` on two range constraints (`Version.union`, `VersionRange.union`), when it answers with one range
+constraint: well-formed, in particular never degenerate (the case repaired by 583640d is the `Version ∪ Version` one) -/
+theorem no_degenerate_range_union_single (x y : RC) (hx : x.WF) (hy : y.WF) (u : RC)
+    (h : rcUnionSingle x y = .ok (some u)) : u.WF ∧ rcNonDegenerate u = true :=
+  ⟨rcUnionSingle_WF x y hx hy u h, rcND_of_WF (rcUnionSingle_WF x y hx hy u h)⟩
+
+/-- `VersionUnion.of(*ranges)` -/
+theorem no_degenerate_range_union_of (l : List RC) (res : VC) (h : unionOfFlat l = .ok res) (hl : ∀ c ∈ l, c.WF) :
+    vcWF res ∧ vcNonDegenerate res = true :=
+  ⟨unionOfFlat_WF l res h hl, vcND_of_vcWF (unionOfFlat_WF l res h hl)⟩
+
+/-- `a.intersect(b)` and `a.union(b)` for every operand shape (empty, version, range, union) -/
+theorem no_degenerate_range_algebra (a b c : VC) (ha : vcWF a) (hb : vcWF b) :
+    (VC.intersect a b = .ok c → vcWF c ∧ vcNonDegenerate c = true) ∧
+    (VC.unionWith a b = .ok c → vcWF c ∧ vcNonDegenerate c = true) :=
+  ⟨fun h => ⟨vcIntersect_WF a b ha hb c h, vcND_of_vcWF (vcIntersect_WF a b ha hb c h)⟩,
+   fun h => ⟨vcUnionWith_WF a b ha hb c h, vcND_of_vcWF (vcUnionWith_WF a b ha hb c h)⟩⟩
+
+/-- **`parse_constraint` / `parse_marker_version_constraint` never return a degenerate range**: every clause form
+(`~`, `~=`, `^`, `X.*`, `!=X.*`, `<`, `<=`, `>`, `>=`, `==`, `!=`, bare), `,` and `||`, any text -/
+theorem no_degenerate_range_parse (s : String) (c : VC) :
+    (VParser.parseConstraint s = .ok c → vcWF c ∧ vcNonDegenerate c = true) ∧
+    (VParser.parseMarkerVersionConstraint s = .ok c → vcWF c ∧ vcNonDegenerate c = true) :=
+  ⟨fun h => ⟨parseConstraint_WF s c h, vcND_of_vcWF (parseConstraint_WF s c h)⟩,
+   fun h => ⟨parseMarkerVersionConstraint_WF s c h, vcND_of_vcWF (parseMarkerVersionConstraint_WF s c h)⟩⟩
+
+/-- hence, for constraints coming out of the parser, without any guard: `==` is symmetric and transitive, equal
+constraints hash alike and (member-wise) admit the same versions.  (Was false before 583640d:
+`counterexample_reachable_degenerate_range`.) -/
+theorem parsed_constraint_beq_hash (s t : String) (a b : VC) (ha : VParser.parseConstraint s = .ok a)
+    (hb : VParser.parseConstraint t = .ok b) (h : Marker.VC.eqv a b = true) :
+    vcHash a = vcHash b ∧ Marker.VC.eqv b a = true ∧ ∀ v, a.allowsPlain v = b.allowsPlain v := by
+  have wa := parseConstraint_WF s a ha
+  have wb := parseConstraint_WF t b hb
+  have na := vcND_of_vcWF wa
+  have nb := vcND_of_vcWF wb
+  exact ⟨vcHash_eq na nb h, vc_eqv_symm na nb h,
+    fun v => (constraint_beq_interchangeable_partial a b na nb (fun r hr => RC.WF.wfB (wa r hr))
+      (fun r hr => RC.WF.wfB (wb r hr)) h v).1⟩
+
+theorem parsed_constraint_beq_trans (s t u : String) (a b c : VC) (ha : VParser.parseConstraint s = .ok a)
+    (hb : VParser.parseConstraint t = .ok b) (hc : VParser.parseConstraint u = .ok c)
+    (h1 : Marker.VC.eqv a b = true) (h2 : Marker.VC.eqv b c = true) : Marker.VC.eqv a c = true :=
+  vc_eqv_trans (vcND_of_vcWF (parseConstraint_WF s a ha)) (vcND_of_vcWF (parseConstraint_WF t b hb))
+    (vcND_of_vcWF (parseConstraint_WF u c hc)) h1 h2
+
+example : VParser.parseConstraint ">=1,<2" = .ok (.single (.rng exRange1)) ∧
+    VParser.parseConstraint "^1.0" = .ok (.single (.rng ⟨some (Version.mk' 0 [1, 0] none none none none),
+      some (Version.mk' 0 [2, 0] none none none none), true, false⟩)) := ⟨by decide +kernel, by decide +kernel⟩
 
 /-- regression (repo fix 583640d; was `counterexample_reachable_degenerate_range`): `1.0 || 1.0+local` used to parse to
 the degenerate range `>=1.0+local,<=1.0+local`, equal to the version `1.0+local` with another hash; `Version.union` now
